@@ -6,7 +6,7 @@ import re
 
 from hypothesis import strategies as st
 
-from vlib import project
+from vlib import gen, project
 from vlib.runner import CaseResult, Violation
 
 ID = "C20"
@@ -80,13 +80,14 @@ def _seq(draw):
             ops.append(["set", key, draw(st.sampled_from(VALUES)), cwd])
         else:
             ops.append([kind, key, cwd])
-    return {"kind": "seq", "ops": ops}
+    return {"kind": "seq", "ops": ops, "invoke": {"plan": [0], "obj": None, "wf_link": True} if draw(st.integers(0, 3)) == 0 else None}
 
 
 @st.composite
 def _prec(draw):
     return {
         "kind": "prec",
+        "invoke": draw(gen.invoke()),
         "backend_flag": draw(st.sampled_from([None, "slurm", "sge", "lsf"])),
         # a backend is always selected somewhere: with neither flag nor config gwf guesses, and the guess
         # (local pool on this machine) would wait for workers that nobody started
@@ -104,6 +105,7 @@ def _prec(draw):
 def _ns(draw):
     return {
         "kind": "ns",
+        "invoke": draw(gen.invoke()),
         "backend": draw(st.sampled_from(["slurm", "slurm", "sge", "lsf"])),
         "accounting": draw(st.sampled_from([None, True, False])),
         "log_mode": draw(st.sampled_from([None, "full", "merged", "none"])),
@@ -144,7 +146,7 @@ DESC = {"targets": [{"name": "A", "inputs": [], "outputs": ["a"], "spec": "echo 
 def run_seq(case):
     viols, labels = [], set()
     model = {}
-    with project.Project(DESC, backend="slurm", subdirs=["sub/deeper"]) as proj:
+    with project.Project(DESC, backend="slurm", subdirs=["sub/deeper"], invoke=case.get("invoke")) as proj:
         os.remove(proj.path(".gwfconf.json"))
         touched = []
         unset_seen = False
@@ -241,7 +243,7 @@ def run_prec(case):
         cfg["verbose"] = case["verbose_conf"]
     if case["color_conf"] is not None:
         cfg["no_color"] = case["color_conf"]
-    with project.Project(DESC, backend="slurm") as proj:
+    with project.Project(DESC, backend="slurm", invoke=case.get("invoke")) as proj:
         proj.write_config(cfg)
         flags = []
         if case["backend_flag"]:
@@ -357,7 +359,7 @@ def run_ns(case):
     for k in case["foreign"]:
         if not k.startswith(f"backend.{b}."):  # unknown keys of the selected namespace are out of scope
             cfg[k] = "zz"
-    with project.Project(DESC, backend=b) as proj:
+    with project.Project(DESC, backend=b, invoke=case.get("invoke")) as proj:
         proj.write_config(cfg, via_cli=case.get("config_via") == "cli")
         r = proj.gwf(["run"])
         if r.code != 0 or r.crashed:
